@@ -12,10 +12,15 @@
     symmetric positive definite matrices when there are degree+1 distinct abscissae (the matrix passed is
     then such a matrix, [C14_gram_nonsingular_spd]).  [Proofs/C14_examples.v] exhibits a concrete [inv]
     meeting it.  [(Z.of_nat k <= 2 ^ 31)%Z] bounds the number of coefficients [k = degree + 1]
-    (the exponent of [powi] is an [i32]). *)
+    (the exponent of [powi] is an [i32]).
+
+    COMPOSED WITH C01 (last section, theorems [C14_..._composed]; proofs in Proofs/C14_compose.v): [inv] is
+    instantiated by C01's model of [invert_matrix] ([slice_invert], Model/SolveInst.v) and the hypothesis
+    above is discharged from C01's theorems.  Those theorems assume nothing about the inner solve; what
+    remains is a condition on the data alone, [has_distinct k x]: at least degree+1 distinct abscissae. *)
 From Coq Require Import Reals List Arith ZArith Bool.
-From Compute Require Import Base.Ops Base.ListMat Model.Reduce Model.MatMul Model.Poly
-  Spec.Poly Proofs.C14_sums Proofs.C14 Proofs.C14_rank Proofs.C14_examples.
+From Compute Require Import Base.Ops Base.ListMat Model.Reduce Model.MatMul Model.Poly Model.SolveInst
+  Spec.Poly Proofs.C14_sums Proofs.C14 Proofs.C14_rank Proofs.C14_examples Proofs.C14_compose.
 Import ListNotations.
 Local Open Scope R_scope.
 
@@ -244,3 +249,63 @@ Theorem C14_run_keeps_degree :
     forallb (fun o => match o with OSetCoef _ => false | _ => true end) ops = true ->
     run O inv coef ops = Some (coef', out) -> length coef' = length coef.
 Proof. exact @run_keeps_degree. Qed.
+
+(** ** composed with C01: the inner solve is C01's model of [invert_matrix], nothing is assumed about it *)
+
+(** the hypothesis of the theorems above, discharged: with degree+1 distinct abscissae, whatever C01's
+    [invert_matrix] returns on the matrix [fit] passes is its inverse *)
+Theorem C14_inner_solve_correct_composed :
+  forall (k : nat) (x y : list R),
+    has_distinct k x -> (Z.of_nat k <= 2 ^ 31)%Z ->
+    forall G Gi, fit_gram RO k x y = Some G -> slice_invert RO G = Some Gi -> right_inverse k G Gi.
+Proof. exact inner_solve_correct_composed. Qed.
+
+(** ... and it does return on every symmetric positive definite matrix (Cholesky route of C01) *)
+Theorem C14_inner_solve_returns_on_spd_composed :
+  forall (n : nat) (A : list R),
+    (0 < n)%nat -> length A = (n * n)%nat -> sym_pos_def n A ->
+    exists Ai, slice_invert RO A = Some Ai /\ right_inverse n A Ai.
+Proof. exact invert_spd_returns. Qed.
+
+(** the headline: lengths agree, degree+1 distinct abscissae  =>  [fit] (Vandermonde, V^T V, C01's
+    [invert_matrix], two products) returns degree+1 coefficients, they solve the normal equations, no
+    coefficient vector has a smaller residual sum of squares, and every other one that does as well is equal *)
+Theorem C14_fit_total_composed :
+  forall (k : nat) (x y : list R),
+    (Z.of_nat k <= 2 ^ 31)%Z -> (0 < k)%nat -> length x = length y -> has_distinct k x ->
+    exists c, fit RO (slice_invert RO) k x y = Some c /\ length c = k /\
+      (forall j, (j < k)%nat ->
+         rsum (fun l => rsum (fun i => nth i x 0 ^ j * nth i x 0 ^ l) (length x) * nth l c 0) k =
+         rsum (fun i => nth i x 0 ^ j * nth i y 0) (length x)) /\
+      (forall c', length c' = k -> rss x y c <= rss x y c') /\
+      (forall c', length c' = k -> rss x y c' <= rss x y c -> c' = c).
+Proof. exact fit_total_composed. Qed.
+
+Theorem C14_fit_is_least_squares_composed :
+  forall (k : nat) (x y c : list R),
+    (Z.of_nat k <= 2 ^ 31)%Z -> has_distinct k x ->
+    fit RO (slice_invert RO) k x y = Some c ->
+    forall c', length c' = k -> rss x y c <= rss x y c'.
+Proof. exact fit_is_least_squares_composed. Qed.
+
+Theorem C14_residual_orthogonal_composed :
+  forall (k : nat) (x y c : list R),
+    (Z.of_nat k <= 2 ^ 31)%Z -> has_distinct k x ->
+    fit RO (slice_invert RO) k x y = Some c ->
+    forall j, (j < k)%nat ->
+      rsum (fun i => nth i x 0 ^ j * (nth i y 0 - poly_sum c (nth i x 0))) (length x) = 0.
+Proof. exact fit_residual_orthogonal_composed. Qed.
+
+(** noiseless data of that degree: [fit] returns the generating coefficients *)
+Theorem C14_fit_recovers_coefficients_composed :
+  forall (k : nat) (x y : list R),
+    (Z.of_nat k <= 2 ^ 31)%Z -> (0 < k)%nat -> length x = length y -> has_distinct k x ->
+    forall c0, length c0 = k ->
+      (forall i, (i < length x)%nat -> nth i y 0 = poly_sum c0 (nth i x 0)) ->
+      fit RO (slice_invert RO) k x y = Some c0.
+Proof. exact fit_recovers_coefficients_composed. Qed.
+
+(** the data condition is satisfiable; the whole composed routine on three points of the line 1 + 2x *)
+Theorem C14_example_composed :
+  has_distinct 2 [0; 1; 2] /\ fit RO (slice_invert RO) 2 [0; 1; 2] [1; 3; 5] = Some [1; 2].
+Proof. exact (conj has_distinct_012 fit_line_composed). Qed.
